@@ -54,4 +54,24 @@ CLAIMED.update({
   "note": LEDGER_NOTE + " 'tip' is the tip the Go map range ends on (hint; the acceptor accepts any tip).", "design_ref": "6 C06",
  },
 })
+CLAIMED.update({
+ "C07": {
+  "engine": "ledgerh+CheckLedger",
+  "technique": "Coq: truncation permutes the vertex collection (Permutation proof over the one-pass ancestor split), by-hash reads are preserved, invariants survive, only confirmed vertices are checkpointed; ancestors_spec ties the walk to the declarative ancestor relation; trace acceptor with injected >=1010-vertex states; before/after monitors on the real ledger",
+  "text": "C07_vertex_lookup_preserved / C07_transaction_lookup_preserved (every by-hash read identical after truncation, nothing new), C07_collection_permuted + C07_invariants_survive (uniqueness, index exactness, graph well-formedness and hence all C03 replay theorems hold across any number of truncations), C07_checkpoints_confirmed_only, C07_short_history_refused, C07_checkpoint_funds_canonical. The balance-preservation and funds-equal-net-flow statements are decided on the implementation by monitors over real truncations (balances of all wallets, encoded content of every vertex and transaction read back by hash, re-submission results, checkpoint funds vs math/big net flow of the stored vertices, follow-up spends of exactly-everything / one-unit-more) and by the model correspondence of the truncate step; their Coq proofs are partial (see DESIGN 6 C07).",
+  "note": LEDGER_NOTE + " The cut is a hint (any ancestor of a tip with >= truncateDiff ancestors); which vertex BFS reaches as the 1000th is decided by Go map order.", "design_ref": "6 C07",
+ },
+ "C13": {
+  "engine": "ledgerh+CheckLedger",
+  "technique": "Coq: parking/reporting, bounds, retry = admission path, invalid never admitted, nothing admitted twice (invariants over all sequences); permutation confluence decided by the model-vs-code acceptor over seeded (quick) / many (thorough) delivery permutations plus a final-ledger monitor against parents-first delivery",
+  "text": "C13_unknown_parent_reported_and_parked, C13_buffer_and_retry_bounds (constants regenerated from the source), C13_retry_is_admission_path, C13_invalid_never_admitted, C13_nothing_admitted_twice, C13_retry_respects_funds. Order-independence of the final ledger (confluence) is not proved in Coq: it is checked by running the real ledger over permutations of a valid vertex set with duplicates, interleaved proposals and retries, comparing the final vertex/edge/index sets with parents-first delivery, and every step with the model.",
+  "note": LEDGER_NOTE + " Confluence is validated, not proved (partial).", "design_ref": "6 C13",
+ },
+ "C14": {
+  "engine": "ledgerh+CheckLedger",
+  "technique": "Coq: all-or-nothing loaded flag and refusal of every malformed-stream class of the property; reproduction of the peer's ledger decided by the acceptor on real StreamDAG->LoadDag runs plus snapshot/balance/follow-up monitors",
+  "text": "C14_failure_leaves_not_loaded, C14_malformed_stream_refused (second self-sealed vertex, empty transaction, non-canonical amount, duplicate vertex/transaction, unknown parent or cycle). That a successful load reproduces vertices, edges, index, genesis wallet, balances and follow-up verdicts is checked on the real code (source vs loaded snapshots, balances, identical follow-up gossip) and against the model's load_dag on every run; KNOWN-FINDING: a peer that has truncated cannot be loaded from.",
+  "note": LEDGER_NOTE + " Reproduction theorem (load_dag of a reachable stream = source up to order) not yet proved: partial.", "design_ref": "6 C14",
+ },
+})
 NOT_YET = {}
